@@ -42,7 +42,8 @@ VCompile(r) ==
 VFind(r) ==
     LET reg == RegOf(r)
         cv  == CompileVerdict(r.q, reg, LoOf(r), HiOf(r))
-    IN  IF cv.v # "accept" THEN Acc                       \* judged by VCompile
+    IN  IF cv.v # "accept" THEN                           \* acceptance is judged by VCompile; whatever compiled must still be total
+            IF r.out # "ok" /\ r.stage = "find" /\ ~r.jp THEN Rej("C13 find raised a non-JSONPathError", <<r.cls>>) ELSE Acc
         ELSE LET segs == Parse(r.q, FALSE).v
              IN  IF DcSegs(segs, r.doc, reg) THEN
                      \* the RESULT is a declared don't-care, raising is not: match()/search() never raise
@@ -124,6 +125,7 @@ VStr(r) ==
                  ELSE IF ~r.recompiles THEN Rej("C12 str() text does not compile", <<>>)
                  ELSE IF r.s2 # r.s THEN Rej("C12 serialising again gives a different text", <<>>)
                  ELSE IF ~StringsCanonical(r.s) THEN Rej("C12 a string literal is not in canonical form", <<>>)
+                 ELSE IF Has(r, "same") /\ ~r.same THEN Rej("C12 the compiled serialisation behaves differently from the compiled original", <<>>)
                  ELSE LET a2 == Parse(r.s, FALSE).v
                       IN  IF NF(a1) = NF(a2) THEN Acc
                           ELSE IF \E k \in 1..Len(r.docs) :
@@ -400,8 +402,25 @@ VApi(r) ==
                           ELSE IF IsSingularSegs(segs) /\ Len(nl) > 1 THEN Rej("API a singular query selected more than one node", <<Len(nl)>>)
                           ELSE Acc
 
+(* ---- repeatability (C14), also where the VALUE is a declared don't-care ---------------------------------- *)
+\* r.results: the outcome of the same (query, document) on a fresh environment and, several times, in the middle of
+\* a long history on a long-lived one: <<"ok", locs>> or <<"raise", class>>.  All must coincide; where the
+\* specification knows the value they must also be that value.
+VRepeat(r) ==
+    LET N   == Len(r.results)
+        reg == RegOf(r)
+        cv  == CompileVerdict(r.q, reg, LoOf(r), HiOf(r))
+    IN  IF \E k \in 2..N : r.results[k] # r.results[1] THEN
+            Rej("C14 the same query on the same document gave different results depending on the history",
+                <<CHOOSE k \in 2..N : r.results[k] # r.results[1]>>)
+        ELSE IF cv.v = "accept" /\ ~DcSegs(Parse(r.q, FALSE).v, r.doc, reg) THEN
+            LET nl == Find(Parse(r.q, FALSE).v, r.doc, reg)
+            IN  IF r.results[1] # <<"ok", [k \in 1..Len(nl) |-> nl[k].loc]>> THEN Rej("nodelist differs", <<>>) ELSE Acc
+        ELSE Acc
+
 Verdict(r) ==
     CASE r.op = "compile" -> VCompile(r)
+      [] r.op = "repeat" -> VRepeat(r)
       [] r.op = "api" -> VApi(r)
       [] r.op = "pcompile" -> VPCompile(r)
       [] r.op = "lex"     -> VLex(r)
